@@ -1542,6 +1542,7 @@ class Skel:
         self.node, self.stop_at, self.result_names = node, stop_at, result_names
         self.tmp = 0
         self.depth = 0
+        self.defname = None
         self.join = 0        # > 0 while translating a branch whose value is joined with mret: a return there cannot be rendered
 
     def fresh(self):
@@ -1764,6 +1765,15 @@ class Skel:
                 return nxt(env)
             b, c, t = self.expr(s.value, env)
             return self.wrap(b, nxt(env))
+        if isinstance(s, ast.FunctionDef) and not s.decorator_list:
+            # a nested function (a closure handed on as a value): one uninterpreted (logged) operation on the local variables it
+            # captures, named by its source text
+            own = {a_.arg for a_ in s.args.args} | {n.id for n in ast.walk(s) if isinstance(n, ast.Name) and isinstance(n.ctx, ast.Store)}
+            free = sorted({n.id for n in ast.walk(s) if isinstance(n, ast.Name) and isinstance(n.ctx, ast.Load) and n.id in env and n.id not in own})
+            text = " ".join(ast.unparse(s).split()).replace('"', "'")
+            env2 = dict(env)
+            env2[s.name] = "V"
+            return '%s <<- call oracle "def:%s" [%s] ;;\n  %s' % (cname(s.name), text, "; ".join(self.toV(cname(n), env[n]) for n in free), self.block(rest, env2, k, brk))
         if isinstance(s, ast.Break):
             if brk is None:
                 raise Unsupported("break outside a loop")
@@ -1963,12 +1973,14 @@ class Skel:
         env = {arg.arg: "V" for arg in a.args}
 
         def kend(env2):
+            if f.name == "__init__" and self.stop_at is None and a.args and a.args[0].arg == "self":
+                return "mret self"        # a constructor: its result is the object it was given, as updated by the stores
             raise Unsupported("the function ends before the cut (no assignment to %s)" % self.stop_at if self.stop_at
                               else "the function may end without return")
         body = self.block(f.body, env, kend, None)
         params = " ".join("(%s : V)" % cname(arg.arg) for arg in a.args)
         rt = "V" if len(self.result_names) <= 1 else "(" + " * ".join("V" for _ in self.result_names) + ")"
-        return "Definition %s %s : M V %s :=\n  %s." % (fname(f.name), params, rt, body)
+        return "Definition %s %s : M V %s :=\n  %s." % (self.defname or fname(f.name), params, rt, body)
 
 
 SKEL_HEADER = """(* GENERATED by vcheck/py2coq.py (skeleton mode) from %(src)s - do not edit.
@@ -2021,13 +2033,34 @@ SKEL_TARGETS = {"main_loop": ("main_loop.py", "fit_stacked_data", "bayesian_ic",
                 "front_split": ("front_end.py", "_split_combined_result", None, []),
                 "admm_front": ("admm/front_end.py", "admm_optimize_theta", None, []),
                 "admm_x": ("admm/solver.py", "admm_update_x", None, []),
-                "pool": ("main_loop.py", "_init_task_pool", None, [])}
+                "pool": ("main_loop.py", "_init_task_pool", None, []),
+                "cm_ranked": ("cluster_maintenance.py", "_find_ranked_donor_cluster_ids", None, []),
+                # the containers: constructors and copies (which fields are handed on as they are, which go through a copying call)
+                "cp_init": ("containers/model_state.py", "ClusterParameters.__init__", None, []),
+                "cp_empty": ("containers/model_state.py", "ClusterParameters.empty_cluster", None, []),
+                "cp_shallow": ("containers/model_state.py", "ClusterParameters.shallow_copy", None, []),
+                "cp_deep": ("containers/model_state.py", "ClusterParameters.deep_copy", None, []),
+                "st_init": ("containers/model_state.py", "ModelState.__init__", None, []),
+                "st_empty": ("containers/model_state.py", "ModelState.empty_model", None, []),
+                "st_shallow": ("containers/model_state.py", "ModelState.shallow_copy", None, []),
+                "st_deep": ("containers/model_state.py", "ModelState.deep_copy", None, []),
+                "ua_shallow": ("containers/arguments.py", "UserArguments.shallow_copy", None, []),
+                "ua_deep": ("containers/arguments.py", "UserArguments.deep_copy", None, []),
+                "aa_shallow": ("containers/arguments.py", "ADMMArguments.shallow_copy", None, []),
+                "aa_deep": ("containers/arguments.py", "ADMMArguments.deep_copy", None, [])}
 
 
 def translate_skeleton(mod, src_root):
     rel, name, stop_at, results = SKEL_TARGETS[mod]
     tree = ast.parse(open(os.path.join(src_root, rel)).read())
     funcs = {n.name: n for n in tree.body if isinstance(n, ast.FunctionDef)}
+    for c_ in tree.body:
+        if isinstance(c_, ast.ClassDef):
+            for n in c_.body:
+                # methods as Class.method (self is an ordinary opaque parameter); property setters / getters are not skeleton targets
+                if isinstance(n, ast.FunctionDef) and not any(isinstance(d, ast.Attribute) or (isinstance(d, ast.Name) and d.id == "property")
+                                                              for d in n.decorator_list):
+                    funcs[c_.name + "." + n.name] = n
     out = [SKEL_HEADER % {"src": "src/fast_ticc/" + rel, "stop": (
         ("The SUFFIX of the function is translated: from the first assignment to `%s` to the end." % stop_at[1]) if isinstance(stop_at, tuple)
         else ("The function is translated up to (not including) the first assignment to `%s`: what follows is result assembly." % stop_at
@@ -2036,7 +2069,10 @@ def translate_skeleton(mod, src_root):
         out.append("  (* %s: NOT TRANSLATED - missing from the source *)\n\nEnd Gen.\n" % name)
         return "".join(out), {name: "missing from the source"}
     try:
-        text = Skel(funcs[name], stop_at, results).translate()
+        sk = Skel(funcs[name], stop_at, results)
+        if "." in name:
+            sk.defname = "g_" + name.replace(".", "_").replace("__", "_")
+        text = sk.translate()
         out.append("  (* %s, lines %d-%d (prefix) *)\n  %s\n\nEnd Gen.\n" % (name, funcs[name].lineno, funcs[name].end_lineno, text.replace("\n", "\n  ")))
         return "".join(out), {name: "ok"}
     except Unsupported as e:
